@@ -383,9 +383,9 @@ def run_scan(ck):
         if name == "sweep" and res:
             # the model-vs-recorded-text comparisons are independent Coq evaluations: run them side by side
             from concurrent.futures import ThreadPoolExecutor
-            with ThreadPoolExecutor(max_workers=7) as ex:
+            with ThreadPoolExecutor(max_workers=8) as ex:
                 futs = [ex.submit(run_traceql_tie, ck, lines, res)] + [ex.submit(f, ck, lines) for f in
-                        (run_estimate_tie, run_label_tie, run_prof_tie, run_tempo_tie, run_prom_tie, run_portions_tie)]
+                        (run_estimate_tie, run_label_tie, run_prof_tie, run_tempo_tie, run_prom_tie, run_prom_window_tie, run_portions_tie)]
                 for f in futs:
                     f.result()
         if name != "sweep":
@@ -949,6 +949,89 @@ def run_prom_tie(ck, lines):
     ck.extra["prom_model_ties"] = len(sel_cases) + len(fetch_cases)
     ck.extra["prom_select_generated_distribution"] = ghist
     ck.coverage["evaluations"] += len(sel_cases) + len(fetch_cases)
+
+
+# ---------------------------------------------------------------- from the request to the hint window (round 8)
+# the place of every selector in the query text of the fixed Prometheus endpoints: (subqueries around it as (offset ms, range ms),
+# range of its matrix selector in ms or 0, its own offset in ms); the generated requests carry theirs in pgen
+PROM_SELS = {
+    "prom_range_downsample": [([], 0, 0)], "prom_range_raw_step": [([], 0, 0)], "prom_range_sum_by": [([], 0, 0)],
+    "prom_range_rate": [([], 60000, 0)], "prom_range_sum_over_time": [([], 300000, 0)], "prom_range_quantile_over_time": [([], 120000, 0)],
+    "prom_range_offset_1d": [([], 0, 0), ([], 0, 86400000)], "prom_range_offset_36h": [([], 0, 0), ([], 0, 129600000)],
+    "prom_range_rate_offset_1w": [([], 300000, 0), ([], 300000, 604800000)],
+    "prom_range_subquery": [([(0, 1800000)], 0, 0)],
+    "prom_range_subsec_range": [([], 89500, 0)], "prom_range_subsec_offset": [([], 0, 899500)],
+    "prom_instant_offset_1d": [([], 0, 0), ([], 0, 86400000)], "prom_instant": [([], 0, 0)]}
+
+
+def run_prom_window_tie(ck, lines):
+    """ScansPromWindow.req_hint (the controller's snapping + the engine's getTimeRangesForSelector, under
+    prom_request_window_covered / prom_request_every_scan_bounded) = Start / End written into the recorded Select statement
+    = the window the harness judged that statement against, for every distinct (endpoint, selector, request) of the sweep"""
+    urls = {l["req"]: l.get("url", "") for l in lines if l["kind"] == "req" and (l["ep"] in PROM_SELS or l["ep"] == "prom_gen")}
+    cases, seen, hist = [], set(), {}
+    for l in lines:
+        if l["kind"] != "stmt" or l["req"] not in urls or "hint_from_ms" not in l:
+            continue
+        if " FROM time_series" in l["sql"] and "JSONExtractKeysAndValues" in l["sql"]:
+            continue
+        lo = re.search(r"\(samples\.timestamp_ns\) >=? \((\d+)\)", l["sql"])
+        hi = re.search(r"\(samples\.timestamp_ns\) (<=|<) \((\d+)\)", l["sql"])
+        if not lo or not hi:
+            continue
+        start = int(lo.group(1)) // 1000000
+        end = int(hi.group(2)) // 1000000 - (1 if hi.group(1) == "<" else 0)
+        u = urls[l["req"]]
+        par = {k: re.search(r"[?&]%s=(\d+)" % k, u) for k in ("start", "end", "time")}
+        if par["time"]:
+            req = "PInstant %d" % (int(par["time"].group(1)) * 10 ** 9)
+        elif par["start"] and par["end"]:
+            req = "PRange %d %d" % (int(par["start"].group(1)) * 10 ** 9, int(par["end"].group(1)) * 10 ** 9)
+        else:
+            continue
+        sel = l.get("sel", 0)
+        if l["ep"] == "prom_gen":
+            g = l.get("pgen") or {}
+            path, rng, off = [], g.get("range_ms", 0), g.get("offset_ms", 0)
+        else:
+            sels = PROM_SELS[l["ep"]]
+            path, rng, off = sels[min(sel, len(sels) - 1)]
+        key = (l["ep"], sel, req, rng, off, start, end)
+        if key in seen:
+            continue
+        seen.add(key)
+        for k in ("instant" if par["time"] else "range", "subquery" if path else "no-subquery", "matrix" if rng else "vector",
+                  "offset" if off else "no-offset", "sub-second reach" if (rng + off) % 1000 else "whole-second reach",
+                  "reach multiple of 15 s" if ((rng or 300000) + off + sum(r for _, r in path)) % 15000 == 0 else "reach off the 15 s grid"):
+            hist[k] = hist.get(k, 0) + 1
+        cases.append((l, "{| pw_id := %d; pw_req := %s; pw_sel := {| ps_path := [%s]; ps_range := %d; ps_offset := %d |}; pw_start := %d; pw_end := %d; "
+                      "pw_hstart := %d; pw_hend := %d |}" % (len(cases), req, "; ".join("{| sq_offset := %d; sq_range := %d |}" % q for q in path), rng, off,
+                                                             start, end, l["hint_from_ms"], l["hint_to_ms"])))
+    if not cases:
+        ck.obligation("Prometheus requests of the sweep compared with ScansPromWindow.req_hint", False, "no statement found")
+        return
+    cases = cases[:1500]
+    txt = ("From Coq Require Import List ZArith.\nFrom Qryn Require Import model.ScansPromWindow.\nImport ListNotations.\nOpen Scope Z_scope.\n"
+           "Definition cases : list pw_case := [\n " + ";\n ".join(c for _, c in cases) + "].\n"
+           "Definition M := Eval vm_compute in pw_mismatches cases.\nPrint M.\n")
+    rc, out = ck.coq_eval("C13_promwin", txt, timeout=300)
+    flat = " ".join((out or "").split())
+    m = re.search(r"M = \[(.*?)\]\s*: list Z", flat)
+    if rc != 0 or not m:
+        ck.obligation("ScansPromWindow.req_hint evaluated on the Prometheus requests of the sweep", False, (out or "")[-1500:])
+        return
+    bad = [int(x) for x in re.findall(r"-?\d+", m.group(1))]
+    eps = {c[0]["ep"] for c in cases}
+    ck.obligation("correspondence: ScansPromWindow.req_hint (start / end snapped by the controller, getTimeRangesForSelector of the engine) = "
+                  "[Start, End] written into the Select statement = the window the statement was judged against, on %d distinct "
+                  "(endpoint, selector, request) of %d endpoints incl. subquery, second selectors with offsets, instant queries and "
+                  "generated ranges / offsets in milliseconds" % (len(cases), len(eps)),
+                  not bad and len(eps) == len(PROM_SELS) + 1 and hist.get("subquery", 0) >= 1 and hist.get("instant", 0) >= 2
+                  and hist.get("sub-second reach", 0) >= 3,
+                  "; ".join("%s sel %d %s %s: %s" % (cases[i][0]["ep"], cases[i][0].get("sel", 0), cases[i][0]["class"],
+                                                      urls[cases[i][0]["req"]], cases[i][1]) for i in bad[:3]) or "distribution %s" % hist)
+    ck.extra["prom_request_window_distribution"] = hist
+    ck.coverage["evaluations"] += len(cases)
 
 
 # ---------------------------------------------------------------- portioned TraceQL search: the window of every portion
